@@ -657,7 +657,7 @@ func unfolder(c *simkit.Choices, x *simkit.Ctx) *simkit.Violation {
 		if c.N(12) == 0 && !similar {
 			// a target type the unfolder must refuse (SetTarget error), now and
 			// every later time, without leaving anything behind
-			te = model.TypeByName([]string{"BadField", "HasBad", "[]BadField", "map[int]string"}[c.N(4)])
+			te = model.TypeByName([]string{"BadField", "HasBad", "[]BadField", "map[int]string", "IfaceField", "HasIface", "[]Namer", "map[string]Namer"}[c.N(8)])
 		}
 		v := te.Gen(c)
 		evs := recordFold(v)
